@@ -6,6 +6,10 @@ namespace Container
 
 /-! ### frames -/
 
+theorem computeMetric_frame (s : State) (name : Name) (vals : List Rat) (f : List Rat → Rat) (mode : Mode) :
+    Frame s (computeMetric s name vals f mode).1 :=
+  computeMetric_preserves (Frame s) _ _ _ _ _ (Frame.refl s) (fun _ => addMetric_frame _ _ _)
+
 theorem computeChainMetric_frame (s : State) (name : Name) (vals : List Rat) (f : List Rat → Rat) (asInt : Bool) :
     Frame s (computeChainMetric s name vals f asInt).1 := by
   unfold computeChainMetric
@@ -25,13 +29,13 @@ theorem pickSubset_frame (F : List Char → Option Rat) (s : State) (conds : Lis
 
 theorem step_frame (F : List Char → Option Rat) (s : State) (op : Op) : Frame s (step F s op).1 := by
   cases op with
-  | computeMetric name vals f mode => exact addMetric_frame _ _ _
+  | computeMetric name vals f mode => exact computeMetric_frame _ _ _ _ _
   | addMetric name vals => exact addMetric_frame _ _ _
   | computeTimings =>
     apply seqOps_frame
     intro o ho s'
     simp only [List.mem_cons, List.not_mem_nil, or_false] at ho
-    rcases ho with rfl | rfl | rfl <;> exact addMetric_frame _ _ _
+    rcases ho with rfl | rfl | rfl <;> exact computeMetric_frame _ _ _ _ _
   | pickSubset conds => exact pickSubset_frame F s conds
   | computeChainMetric name vals f asInt => exact computeChainMetric_frame _ _ _ _ _
   | computeChainTimings =>
@@ -70,13 +74,14 @@ theorem computePositionInChain_good (s : State) (h : HasGood s) : HasGood (compu
 
 theorem step_good (F : List Char → Option Rat) (s : State) (op : Op) (h : HasGood s) : HasGood (step F s op).1 := by
   cases op with
-  | computeMetric name vals f mode => exact addMetric_good _ _ _ h
+  | computeMetric name vals f mode => exact computeMetric_preserves HasGood _ _ _ _ _ h (fun _ => addMetric_good _ _ _ h)
   | addMetric name vals => exact addMetric_good _ _ _ h
   | computeTimings =>
     apply seqOps_preserves HasGood _ _ s h
     intro o ho s' hs'
     simp only [List.mem_cons, List.not_mem_nil, or_false] at ho
-    rcases ho with rfl | rfl | rfl <;> exact addMetric_good _ _ _ hs'
+    rcases ho with rfl | rfl | rfl <;>
+      exact computeMetric_preserves HasGood _ _ _ _ _ hs' (fun _ => addMetric_good _ _ _ hs')
   | pickSubset conds =>
     simp only [step, pickSubset]
     split
@@ -101,12 +106,9 @@ theorem step_good (F : List Char → Option Rat) (s : State) (op : Op) (h : HasG
 theorem inv_setCache (b : Bool) (s : State) (h : Inv s) : Inv (setCache b s) := ⟨h.cv, h.lens, h.names, h.sel⟩
 
 theorem cycleStat_any_cache (b b' : Bool) (mode : Mode) (f : List Rat → Rat) (thr : Rat) (ph : List Rat) {cv : List Int} {K : Nat}
-    (h : CvOK cv K) (vals : List Rat) (hv : mode = .cycle → vals.length = cv.length) :
-    cycleStat b mode f thr ph cv vals = cycleStat b' mode f thr ph cv vals := by
-  have key : cycleStat true mode f thr ph cv vals = cycleStat false mode f thr ph cv vals := by
-    cases mode with
-    | cycle => exact cycle_cache_eq_lookup f h.1 vals (hv rfl)
-    | augmented => exact aug_cache_eq_lookup f h thr ph vals
+    (h : CvOK cv K) (vals : List Rat) (hv : vals.length = cv.length) :
+    cycleStatV b mode f thr ph cv vals = cycleStatV b' mode f thr ph cv vals := by
+  have key := cycleStat_cache_irrelevant mode f thr ph h vals hv
   cases b <;> cases b' <;> simp [key]
 
 theorem addMetric_setCache (b : Bool) (s : State) (name : Name) (v : List Val) :
@@ -114,14 +116,14 @@ theorem addMetric_setCache (b : Bool) (s : State) (name : Name) (v : List Val) :
   by_cases hv : v.length = s.K <;> simp [addMetric, setCache, hv]
 
 theorem computeMetric_setCache (b : Bool) (s : State) (h : Inv s) (name : Name) (vals : List Rat) (f : List Rat → Rat)
-    (mode : Mode) (hv : mode = .cycle → vals.length = s.cv.length) :
+    (mode : Mode) (hv : vals.length = s.cv.length) :
     computeMetric (setCache b s) name vals f mode =
       (setCache b (computeMetric s name vals f mode).1, (computeMetric s name vals f mode).2) := by
-  unfold computeMetric
-  rw [addMetric_setCache]
-  have : cycleStat (setCache b s).cache mode f (setCache b s).thr (setCache b s).phase (setCache b s).cv vals =
-      cycleStat s.cache mode f s.thr s.phase s.cv vals := cycleStat_any_cache _ _ mode f s.thr s.phase h.cv vals hv
+  rw [computeMetric_ok _ (inv_setCache b s h) _ _ _ _ hv, computeMetric_ok _ h _ _ _ _ hv]
+  have : cycleStatV (setCache b s).cache mode f (setCache b s).thr (setCache b s).phase (setCache b s).cv vals =
+      cycleStatV s.cache mode f s.thr s.phase s.cv vals := cycleStat_any_cache _ _ mode f s.thr s.phase h.cv vals hv
   rw [this]
+  rfl
 
 theorem seqOps_setCache (b : Bool) (ops : List (State → State × Except Err Out))
     (hops : ∀ o ∈ ops, ∀ s, Inv s → Inv (o s).1 ∧ o (setCache b s) = (setCache b (o s).1, (o s).2))
@@ -157,8 +159,10 @@ theorem computePositionInChain_setCache (b : Bool) (s : State) :
   rw [e]
   cases hs : s.sel <;> rfl
 
+/-- the per-sample value vector handed to `compute_cycle_metric` has one value per sample (both
+    metric modes: the code checks nothing, and the lookup route raises on a short vector) -/
 def Op.ValsOK (n : Nat) : Op → Prop
-  | .computeMetric _ vals _ mode => mode = .cycle → vals.length = n
+  | .computeMetric _ vals _ _ => vals.length = n
   | _ => True
 
 /-- Setting the cache flag before an operation or after it gives the same state and the same output. -/
@@ -173,9 +177,9 @@ theorem step_setCache (F : List Char → Option Rat) (b : Bool) (s : State) (op 
     intro o ho s' hs'
     simp only [List.mem_cons, List.not_mem_nil, or_false] at ho
     rcases ho with rfl | rfl | rfl
-    · exact ⟨addMetric_inv _ _ _ hs', computeMetric_setCache b s' hs' _ _ _ _ (by intro _; simp [arange, setCache])⟩
-    · exact ⟨addMetric_inv _ _ _ hs', computeMetric_setCache b s' hs' _ _ _ _ (by intro _; simp [arange, setCache])⟩
-    · exact ⟨addMetric_inv _ _ _ hs', computeMetric_setCache b s' hs' _ _ _ _ (by intro _; simp [cvRat, setCache])⟩
+    · exact ⟨computeMetric_preserves Inv _ _ _ _ _ hs' (fun _ => addMetric_inv _ _ _ hs'), computeMetric_setCache b s' hs' _ _ _ _ (by simp [arange, setCache])⟩
+    · exact ⟨computeMetric_preserves Inv _ _ _ _ _ hs' (fun _ => addMetric_inv _ _ _ hs'), computeMetric_setCache b s' hs' _ _ _ _ (by simp [arange, setCache])⟩
+    · exact ⟨computeMetric_preserves Inv _ _ _ _ _ hs' (fun _ => addMetric_inv _ _ _ hs'), computeMetric_setCache b s' hs' _ _ _ _ (by simp [cvRat, setCache])⟩
   | pickSubset conds =>
     simp only [step, pickSubset]
     have e : (setCache b s).metrics = s.metrics := rfl
